@@ -282,3 +282,10 @@ package harfbuzz
 //@   loop 5 invariant [assigned] forall(k, start, i, b.outInfo[k].Cluster == cluster) && forall(k, 0, len(b.outInfo), implies(k < start || k >= i, b.outInfo[k].Cluster == old(b.outInfo[k].Cluster)))
 //@   loop 5 invariant [min] forall(k, start, end, cluster <= old(b.outInfo[k].Cluster))
 //@   loop 5 invariant [in-kept] forall(k, 0, len(b.Info), b.Info[k].Cluster <= old(b.Info[k].Cluster))
+//
+// Property C18, class-based pair positioning: when either value record moved a glyph, the range flagged unsafe to break
+// runs from the first glyph of the pair to the second one included, however many skipped glyphs lie in between.
+//@ func otApplyContext.applyGPOSPair2 C18
+//@   mode int
+//@   assert_at call unsafeToBreak#1 : [pair-flagged] arg1 == buffer.idx && arg2 == skippyIter.idx+1
+//@   modifies unspecified
